@@ -6,6 +6,7 @@
 
 mod c01;
 mod c02;
+mod c13;
 mod common;
 mod crash;
 mod hist;
@@ -18,6 +19,7 @@ use report::Summary;
 use std::collections::HashMap;
 
 fn main() {
+    std::env::remove_var("RUST_BACKTRACE");
     let args: Vec<String> = std::env::args().collect();
     if args.len() < 2 {
         eprintln!("usage: vsim <CHECK> --seed S --start A --count N [--tier T] [--budget-ms M] --out FILE | --replay FILE");
@@ -55,6 +57,7 @@ fn main() {
         let r = match check.as_str() {
             "C01" => c01::replay(&plan, &mut sum),
             "C02" => c02::replay(&plan, &mut sum),
+            "C13" => c13::replay(&plan, &mut sum),
             _ => Err(format!("unknown check {}", check)),
         };
         if let Err(e) = r {
@@ -65,6 +68,7 @@ fn main() {
         match check.as_str() {
             "C01" => c01::run_batch(seed, start, count, &tier, budget_ms, &mut sum),
             "C02" => c02::run_batch(seed, start, count, &tier, budget_ms, &mut sum),
+            "C13" => c13::run_batch(seed, start, count, &tier, budget_ms, &mut sum),
             _ => {
                 eprintln!("unknown check {}", check);
                 status = 2;
